@@ -313,6 +313,45 @@ func laneSettingsVsObjects(c *ev.Ctx, id string, sidecar bool) {
 		c.Violation("settings-vs-objects:"+op+":key="+key+":"+strings.Join(diffs, "+")+"-changed["+store+"]", id, map[string]any{"operation": op, "key": key, "answer": resp.String(), "settings_written": want, "settings_read_after": got})
 		return false
 	}
+	// the bucket holds nothing yet: a multipart upload that comes and goes (aborted, or completed and the object
+	// deleted again) leaves the bucket empty once more - and in existence, with everything that was set on it
+	for _, key := range []string{"only-upload", "deep/er/upload"} {
+		if up, r := alice.CreateMPU(b, key); r.OK() {
+			alice.UploadPart(b, key, up, 1, []byte("part of an upload that is aborted"))
+			ab := alice.AbortMPU(b, key, up)
+			if !check("abort-only-multipart-upload-of-an-empty-bucket", key, ab) {
+				return
+			}
+		}
+		if up, r := alice.CreateMPU(b, key); r.OK() {
+			pr := alice.UploadPart(b, key, up, 1, []byte("part of an upload that is completed"))
+			cr := alice.CompleteMPU(b, key, up, []s3c.Part{{N: 1, ETag: pr.Header.Get("Etag")}})
+			if !check("complete-only-multipart-upload-of-an-empty-bucket", key, cr) {
+				return
+			}
+			d := alice.DeleteObject(b, key)
+			if vid := cr.Header.Get("X-Amz-Version-Id"); vid != "" {
+				alice.DeleteObjectV(b, key, vid)
+				if l := alice.Sub("GET", b, "", "versions=", nil); l.OK() {
+					var vl struct {
+						DeleteMarker []struct{ Key, VersionId string }
+						Version      []struct{ Key, VersionId string }
+					}
+					xml.Unmarshal(l.Body, &vl)
+					for _, v := range vl.DeleteMarker {
+						alice.DeleteObjectV(b, v.Key, v.VersionId)
+					}
+					for _, v := range vl.Version {
+						alice.DeleteObjectV(b, v.Key, v.VersionId)
+					}
+				}
+			}
+			if !check("delete-last-object-of-the-bucket", key, d) {
+				return
+			}
+		}
+		c.Distinct("S|upload-comes-and-goes|" + key + "|" + store)
+	}
 	for _, key := range []string{"data.txt", "meta", "meta/acl", "meta/policy", "acl", "policy", "user.acl", "meta/", "x/meta", "meta/meta"} {
 		body := []byte("object data under " + key)
 		if strings.HasSuffix(key, "/") {
